@@ -1,7 +1,7 @@
 """Obligations for C19."""
 from oblib import ob
 
-BOUNDS = {'quick': 'Inside: Flags.Set/Join/Clear/Get/Has for ALL 64-bit presence/value words satisfying the invariant, all argument words and a symbolic key (full width, one inductive step; z3 and cvc5 must agree); v1-then-anything-then-v2 cancellation; Struct.Join + GetOption for all sequences of 1 option (incl. a nested Struct built from 2 options) and of 2 options from {any single boolean flag true/false, Indent, IndentPrefix, ByteLimit, DepthLimit, nil}, against a backwards-scanning last-wins map; option scoping: UnmarshalDecode/MarshalEncode on a long-lived coder with and without call options, inputs with symbolic holes producing errors at any field (incl. string-tagged): coder options identical afterwards, nothing leaked; explicit-false: for each of 24 boolean options (7 v2, 12 v1, 5 coder) chosen by the solver, Marshal of three values (duration without format, a struct touching byte arrays / nil slice / nil map / string-tagged pointer / omitempty struct and array / interface, a string-tagged string) and Unmarshal of documents with a symbolic hole give the same success and the same bytes/value with no options, with the option passed as false, as true-then-false, and with v1 defaults followed by DefaultOptionsV2. Outside: longer sequences (thorough: 2 with nesting, 3 without), options not affecting an operation for typed arshal.', 'thorough': 'As quick with sequences of 2 options incl. nested Structs and 3 options without nesting, more scope templates.'}
+BOUNDS = {'quick': 'Inside: Flags.Set/Join/Clear/Get/Has for ALL 64-bit presence/value words satisfying the invariant, all argument words and a symbolic key (full width, one inductive step; z3 and cvc5 must agree); v1-then-anything-then-v2 cancellation; Struct.Join + GetOption for all sequences of 1 option (incl. a nested Struct built from 2 options) and of 2 options from {any single boolean flag true/false, Indent, IndentPrefix, ByteLimit, DepthLimit, nil}, against a backwards-scanning last-wins map; option scoping: UnmarshalDecode/MarshalEncode on a long-lived coder with and without call options, inputs with symbolic holes producing errors at any field (incl. string-tagged): coder options identical afterwards, nothing leaked; explicit-false: for each of 24 boolean options (7 v2, 12 v1, 5 coder) chosen by the solver, Marshal of three values (duration without format, a struct touching byte arrays / nil slice / nil map / string-tagged pointer / omitempty struct and array / interface, a string-tagged string) and Unmarshal of documents with a symbolic hole give the same success and the same bytes/value with no options, with the option passed as false, as true-then-false, and with v1 defaults followed by DefaultOptionsV2. nil-arshalers: WithMarshalers(nil)/WithUnmarshalers(nil) passed directly, joined, or after a non-nil setter behave as no option on 3 value shapes behind interfaces. Outside: longer sequences (thorough: 2 with nesting, 3 without), options not affecting an operation for typed arshal.', 'thorough': 'As quick with sequences of 2 options incl. nested Structs and 3 options without nesting, more scope templates.'}
 ASSUMPTIONS = []
 
 
@@ -26,4 +26,9 @@ def obligations(tier):
     for mode in range(3):
         for i, t in enumerate(TU if not q else TU[1:4]):
             L.append(ob("explicit-false/unmarshal/mode=%d/t%d" % (mode, i), ".", "VerifC19ExplicitFalseUnmarshal", [mode, t]))
+    for i, t in enumerate(['{"?":"1"}', '{"b":1,"q":?}']):
+        for wo in (False, True):
+            L.append(ob("scope-nil-embedded/t%d/callopt=%d" % (i, wo), ".", "VerifC19ScopeNilEmbedded", [t, wo], covers=["first-error"]))
+    for side in (False, True):
+        L.append(ob("nil-arshalers/unmarshal=%d" % side, ".", "VerifC19NilArshalers", [side], covers=["unmarshal-done" if side else "marshal-done"]))
     return L
